@@ -30,28 +30,33 @@ def matrix_lifecycle_part(ev, fnd, unknown, tier):
     insert_boundary / remove_last / vine_swap, with the provenance of every object (copy with a live source, copy
     whose source is gone, moved) part of the state so that 'a copy whose source was destroyed is mutated' is a
     transition of the graph.  Replayed under ASan+UBSan on 8-12 Matrix option sets per column type and field."""
-    cols = pm_common.pick_cols(tier) if tier == "thorough" else [0, 8, [1, 2, 3, 4, 5, 6, 7][vf.seed() % 7]]
+    cols = pm_common.pick_cols(tier) if tier == "thorough" else [0, [1, 2, 3, 4, 5, 6, 7, 8][vf.seed() % 8]]
     jobs = [dict(name="lcm_c%d_z%d_san" % (c, z2), src="lcm_replay.cpp", defines=["VF_COL=%d" % c, "VF_Z2=%d" % z2],
                  sanitize="address,undefined") for c in cols for z2 in (0, 1)]
     bins = vf.build_many(jobs, par=min(len(jobs), 12))
     total = 0
-    for part, cfg, z2, p in (("lifecycle_matrix_z3", "MC_MatrixLifecycle_z3.cfg", 0, 3),
-                             ("lifecycle_matrix_z2_vine", "MC_MatrixLifecycle_z2v.cfg", 1, 2)):
+    plan = [("lifecycle_matrix_z3", "MC_MatrixLifecycle_z3.cfg", 0, 3, 2, None),
+            ("lifecycle_matrix_z2_vine", "MC_MatrixLifecycle_z2v.cfg", 1, 2, 2, None)]
+    if tier == "thorough":   # larger bounds, outgoing transitions of every state sampled
+        plan += [("lifecycle_matrix_z3_3slots", "MC_MatrixLifecycle_z3_s3.cfg", 0, 3, 3, 6),
+                 ("lifecycle_matrix_z2_vine_3vertices", "MC_MatrixLifecycle_z2v_t.cfg", 1, 2, 2, 8)]
+    for part, cfg, z2, p, nslots, per_state in plan:
         r = vf.tlc("MC_MatrixLifecycle", cfg, workers=1, timeout=1100)
         if r.violation:
             unknown.append({"kind": "model", "tlc": r.violation})
             continue
-        init = {"objs": [{"live": False, "f": [], "kind": "none", "src": 0} for _ in range(2)]}
+        init = {"objs": [{"live": False, "f": [], "kind": "none", "src": 0} for _ in range(nslots)]}
         g = vf.StateGraph.from_tlc(r.outfile, init_id=init)
         ev.add_tlc(part, r, {"graph_states": len(g.obs), "graph_edges": g.nedges, "cfg": cfg})
         os.remove(r.outfile)
         work = os.path.join(vf.BUILD, "work", "%s_%s_%d" % (PROP, part, os.getpid()))
         env = dict(ASAN_ENV)
-        env.update({"VF_SLOTS": "2", "VF_P": str(p)})
+        env.update({"VF_SLOTS": str(nslots), "VF_P": str(p)})
         mine = [b for b, j in zip(bins, jobs) if ("VF_Z2=%d" % z2) in j["defines"]]
         del vf.last_notes[:]
-        summ, devs, crashes, nb = vf.replay(g, mine, work, env=env, shards=5, rnd=random.Random(vf.seed()), walks=200, walk_len=24,
-                                            timeout=3000)
+        summ, devs, crashes, nb = vf.replay(g, mine, work, env=env, shards=8 if tier == "quick" else 5, rnd=random.Random(vf.seed()),
+                                            walks=100 if tier == "quick" else 400, walk_len=24, timeout=3000,
+                                            max_edges_per_state=per_state)
         beh = sum(s["behaviours"] for s in summ.values())
         ev.parts[part]["replay"] = {"behaviours_in_cover": nb, "configs": len(summ), "behaviours": beh,
                                     "steps": sum(s["steps"] for s in summ.values()), "sanitizers": "address,undefined",
@@ -177,14 +182,25 @@ def main(tier):
             for g in (0, 1)]
     bins = vf.build_many(jobs)
     total = 0
+    import time
+    t0 = time.time()
+
+    def lap(name):
+        ev.parts.setdefault("wall_by_part_s", {})[name] = round(time.time() - t0, 1)
+        vf.log("[c15] %s done at %.0fs" % (name, time.time() - t0))
     # the sanitized replay is slow (ASan, one fork per wrong-length deserialize): quick samples the outgoing edges
-    # of every state of the 2-slot graph, thorough replays all 142 380 of them
+    # of every state of the 2-slot graph (2 per state), thorough replays all 142 380 of them
     total += lifecycle_part(ev, fnd, unknown, "lifecycle_tree_2slots", "MC_Lifecycle_tree2.cfg", 2, bins, 6,
-                            per_state=3 if tier == "quick" else None)
+                            per_state=2 if tier == "quick" else None)
+    lap("lifecycle_tree_2slots")
     total += lifecycle_part(ev, fnd, unknown, "lifecycle_tree_3slots", "MC_Lifecycle_tree3.cfg", 3, bins, 2)
+    lap("lifecycle_tree_3slots")
     total += matrix_lifecycle_part(ev, fnd, unknown, tier)
+    lap("lifecycle_matrix")
     total += sanitized_other_drivers(ev, unknown, tier)
+    lap("sanitized_other_drivers")
     total += threads_part(ev, unknown, tier)
+    lap("threads")
     ev.cov["evaluations"] = total
     ev.cov["distinct_nontrivial"] = ev.cov["states"]
     ev.cov["exhaustive"] = True
